@@ -102,7 +102,7 @@ func CheckC19(r *Run) int {
 			optsL = append(optsL, opt{flag, value})
 		}
 		ins, os_ := inputs, outs
-		tys := []string{"bash", "batch", "bash ", "sh", "Bash", "", " batch"}
+		tys := []string{"bash", "batch", "bash ", "Bash", ""}
 		if quick {
 			// values with a blank at an edge name nothing that exists: they must fail like any other missing file, directory or target
 			ins = []string{"in/rel.1.0/build", "in/a.b.tsh", "in/my prog.tsh", "in/bad.tsh", "in/a.b.tsh ", "in/std.tsh"}
@@ -306,7 +306,7 @@ func CheckC19(r *Run) int {
 			}
 		}
 		return cmdOutcome{Kind: "ok-exit"}
-	}, gosym.ExploreOpts{Workers: r.Workers, TimeoutMS: 10000, Budget: gosym.Budget{MaxPaths: 2_000_000, Steps: 30_000_000}, OnPath: func(pr *gosym.PathResult) {
+	}, gosym.ExploreOpts{Workers: r.Workers, TimeoutMS: 10000, Budget: gosym.Budget{MaxPaths: 4_000_000, Steps: 30_000_000}, OnPath: func(pr *gosym.PathResult) {
 		if pr.End == "unsupported" {
 			for _, n := range pr.Notes {
 				if strings.HasPrefix(n, "args:") {
